@@ -141,9 +141,4 @@ def acceptable_outcomes(trace, interests, packets, legacy=False, deadline_valida
                 k2 = later[0][0]
                 end2 = window_end(k2)
                 acc[i] |= {o for (ix, o) in later if ix <= end2} | {o for (ix, o) in soft[i] if ix <= end2}
-    for i, t in awaited.items():
-        if i in dl and t >= dl[i] and i in acc:
-            # the caller only started waiting at / after the deadline: the library documents a grace period for this
-            # "send, compute, then fetch" pattern, the statement is silent -> every candidate outcome is acceptable
-            acc[i] |= {o for (_ix, o) in cands[i]} | {o for (_ix, o) in soft[i]}
     return acc, first
